@@ -67,6 +67,9 @@ func emit(p *interpgen.Program) interpgen.Result {
 	}
 	c.Weigh(res.TraceBytes / 64)
 	c.Case(wrapProg(interpgen.CoqCase(p, res)+" 0"), p, key(p), res.Steps > 0)
+	if afterEmit != nil { // C05: the same flag set through other option lists (c05_options.go)
+		afterEmit(p, res)
+	}
 	return res
 }
 
@@ -96,6 +99,10 @@ func main() {
 
 func runC05() {
 	r := common.NewRand(c.Seed)
+	c.SetHeader(header + "From GoBT Require Import model.FlagOptions.\n")
+	afterEmit = optionListCheck
+	lockTimePrograms()
+	flagOptionPrograms()
 	stride, nRandom, nP2SH, nVec := 131, 400, 60, 150
 	maxLen := 12
 	if c.Thorough() {
@@ -103,7 +110,21 @@ func runC05() {
 	}
 	interpgen.Matrix(func(p *interpgen.Program) { res := emit(p); refCheck(p, res) }, stride)
 	interpgen.BigNumSweep(func(p *interpgen.Program) { emit(p) })
-	interpgen.ArithEdges(func(p *interpgen.Program) { emit(p) }, c.Thorough())
+	// quick: of the "every encoding of zero x comparison / boolean opcode" block (3200 programs) the model evaluates a
+	// seed-rotating half (both eras and both operand orders of the chosen (operands, opcode)); the implementation-side
+	// predicates run on all of them. (Round 8: pays for the lock-time and flag-option families.)
+	nCmp := 0
+	interpgen.ArithEdges(func(p *interpgen.Program) {
+		if n := len(p.Lock); !c.Thorough() && p.Kind == "arith-edge" && n >= 4 && p.Lock[n-4] >= 0x9a && p.Lock[n-4] <= 0xa4 {
+			nCmp++
+			if ((nCmp-1)/4+(nCmp-1)/40)%2 != int(c.Seed%2) {
+				res := emitNoModel(p)
+				optionListCheck(p, res)
+				return
+			}
+		}
+		emit(p)
+	}, c.Thorough())
 	longNumbers()
 	// deep stacks: all (k, n) when thorough; quick keeps every k up to n = 65 and a reduced set of k beyond (these
 	// programs cost n*(k+n) on both sides and were two thirds of the harness's running time)
@@ -173,7 +194,7 @@ func runC05() {
 	c.Stats.Extra["node_vectors_skipped_signature_ops"] = skipped
 	c.Stats.Extra["node_vectors_used"] = used
 	c.Stats.Extra["node_vectors_impl_agrees"] = agree
-	c.Stats.Rule = "targeted families: long number operands (16 .. 8193 bytes quick, .. 65537 thorough: the lengths at which 8*(len-1), 8*len and len pass 2^7, 2^8, 2^15, 2^16; 11 operand shapes of both signs, minimal and padded; 30 number-reading opcodes; model up to 129/257 bytes, Go-level math/big reference on all), big-number operand sweep (index/position/size/count opcodes x numbers around 2^31, 2^32, 2^63, 2^64, 2^72 and their negatives), programs sitting on every pre-Genesis limit (op count with executed and with skipped opcodes, stack depth incl. alt stack, element size via push/CAT/NUM2BIN, script size, number length) in both eras, ordered pairs of 42 value-producing snippets in one execution (same opcode twice and hash x hash always, a quarter of the rest per seed), 1120 script-boundary programs (what the unlocking script leaves on the alt stack / in conditionals when it ends normally or with a top-level OP_RETURN, zero-length scripts), 1500 flow-control programs (IF/NOTIF/ELSE/ENDIF/RETURN/VERIF/alt-stack alphabet split between unlocking and locking script); then: opcode x edge-operand matrix (31 operands; all unary opcodes and all shift counts 0..8n+1 for n in {0,1,2,3,8} always; binary/ternary combinations every 131st in quick, every 7th in thorough; 8 flag sets over both eras), grammar-generated programs over the full opcode alphabet with nested IF/NOTIF/ELSE/ENDIF, OP_RETURN placement, tx contexts for CLTV/CSV, P2SH pairs, and the signature-free node vectors of script_tests.json (evaluated on the model AND compared with the node's expected verdict). distinct = distinct (scripts, flags, context); non-trivial = at least one instruction completed"
+	c.Stats.Rule = "targeted families: lock-time opcodes under transaction contexts over the whole unsigned 32-bit range (versions 0 1 2 3 2^31-1 2^31 2^31+2 2^32-1; lock times and operands around 500 000 000, 2^31, 2^32, 2^32+small, 2^39-1, negative, padded, six-byte; sequences with the disable / type bits; three program shapes; as NOPs, on an empty stack, without transaction / spent output: Go-level BIP65/BIP112 reference over math/big on every program, the model on a seed-rotating quarter plus every wide-field case), flag-option lists (one probe program per non-signature flag x 55 flag sets x every way interpgen.OptionLists assembles the set from WithFlags / WithAfterGenesis / WithForkID / WithP2SH at four places among the other options: same verdict, steps and snapshots as the single WithFlags; the model computes the flag word from the option list; every eighth program of all other families is re-run under a rotating list), long number operands (16 .. 8193 bytes quick, .. 65537 thorough: the lengths at which 8*(len-1), 8*len and len pass 2^7, 2^8, 2^15, 2^16; 11 operand shapes of both signs, minimal and padded; 30 number-reading opcodes; model up to 129/257 bytes, Go-level math/big reference on all), big-number operand sweep (index/position/size/count opcodes x numbers around 2^31, 2^32, 2^63, 2^64, 2^72 and their negatives), programs sitting on every pre-Genesis limit (op count with executed and with skipped opcodes, stack depth incl. alt stack, element size via push/CAT/NUM2BIN, script size, number length) in both eras, ordered pairs of 42 value-producing snippets in one execution (same opcode twice and hash x hash always, a quarter of the rest per seed), 1120 script-boundary programs (what the unlocking script leaves on the alt stack / in conditionals when it ends normally or with a top-level OP_RETURN, zero-length scripts), 1500 flow-control programs (IF/NOTIF/ELSE/ENDIF/RETURN/VERIF/alt-stack alphabet split between unlocking and locking script); then: opcode x edge-operand matrix (31 operands; all unary opcodes and all shift counts 0..8n+1 for n in {0,1,2,3,8} always; binary/ternary combinations every 131st in quick, every 7th in thorough; 8 flag sets over both eras), grammar-generated programs over the full opcode alphabet with nested IF/NOTIF/ELSE/ENDIF, OP_RETURN placement, tx contexts for CLTV/CSV, P2SH pairs, and the signature-free node vectors of script_tests.json (evaluated on the model AND compared with the node's expected verdict). distinct = distinct (scripts, flags, context); non-trivial = at least one instruction completed"
 }
 
 // opcode arity table for the frame check: how many items of the data stack an opcode may touch
